@@ -179,7 +179,9 @@ class MultiTerm(qcore.Query):
 
         existing = []
         for btext in sorted(set(self._btexts(ixreader))):
-            text = field.from_bytes(btext)
+            text = btext
+            if isinstance(btext, bytes_type):
+                text = field.from_bytes(btext)
             existing.append(Term(fieldname, text, boost=self.boost))
 
         if len(existing) == 1:
